@@ -417,7 +417,7 @@ def r6_errors_not_discarded(ctx):
              'items of type Result<_, pavex::request::..Error>, which silently drops every `Err`). Malformed input must surface as the documented '
              'error, not as a missing parameter.')
     mods = (RQ + 'path::', RQ + 'query::', RQ + 'body::', '<' + RQ + 'path::', '<' + RQ + 'query::', '<' + RQ + 'body::')
-    n_ctrl, bad = 0, 0
+    n_ctrl, bad, n_seen = 0, 0, 0
     for b in ctx.fb.bodies(CR):
         if b.is_promoted or not b.nid.startswith(mods):
             continue
@@ -425,6 +425,7 @@ def r6_errors_not_discarded(ctx):
             c = callee(t) or ''
             m = c.split('::')[-1]
             own = lambda ty: 'core::result::Result<' in ty and RQ in ty.split('core::result::Result<', 1)[1] and 'rror' in ty
+            n_seen += 1 if (c.startswith('core::result::Result::') or (t['aty'] and own(t['aty'][0]))) else 0
             if c.startswith('core::result::Result::') and m in ('ok', 'err', 'unwrap_or', 'unwrap_or_default', 'unwrap_or_else'):
                 n_ctrl += 1
                 if t['aty'] and own(t['aty'][0]):
@@ -438,7 +439,9 @@ def r6_errors_not_discarded(ctx):
                     ctx.ob('C15.R6', 'error-discarded|%s|%s' % (b.nroot.replace(RQ, ''), m), False, b.loc(bb, t),
                            'Iterator::%s over items of type %s: a Result iterates over its Ok value only, so every Err is silently dropped'
                            % (m, [g[:110] for g in t.get('ga', []) if own(g)][:1]))
-    ctx.floor('C15.R6', 'Result / iterator adaptors of the discarding kind in the extractor modules (positive control)', n_ctrl, 2)
+    # positive control: the rule sees the calls made on Results in these modules at all (how many of them are of the discarding kind is
+    # the maintainers' business: an `.ok()` on a header-parsing result may come and go)
+    ctx.floor('C15.R6', 'calls on a Result (or taking one of the extractors\' own Results) in the extractor modules', n_seen, 10)
     ctx.ob('C15.R6', 'no-extraction-error-discarded', bad == 0, '', '%d discarding call(s) on the extractors\' own errors (of %d adaptor calls looked at)' % (bad, n_ctrl))
 
 
